@@ -375,7 +375,99 @@ def c15(tier):
                       t0, timeout=5, extra_cov={"fault_points": total_k, "exhaustive": True, "level_hint": "fault enumeration is complete for the listed workloads"})
 
 
-REGISTRY = {"C01": c01, "C07": c07, "C15": c15, "C11": c11, "C19": c19, "C14": c14, "C16": c16, "C04": c04, "C05": c05, "C06": c06, "C08": c08, "C09": c09}
+def c10(tier):
+    t0 = time.time()
+    exe = vlib.build()
+    en = formats.enumerate_formats(exe)
+    majors = [m for m, _ in en["majors"]]
+    subs = [s_ for s_, _ in en["subtypes"]]
+    endians = [0x00000000, 0x10000000, 0x20000000, 0x30000000]
+    chans = [0, 1, 2, 3, 8, 9, 256, 257, 1024, 1025]
+    rates = [-1, 0, 1, 8000, 44100, 2147483647]
+    if tier == "quick":
+        # on every change: a sub-grid that still reaches every rejection rule (bounds of channels and rate, every format word)
+        chans = [0, 1, 2, 9, 1025]
+        rates = [0, 1, 44100]
+    enum_lines = []
+    for kind, cnt in (("major", len(en["majors"])), ("subtype", len(en["subtypes"])), ("simple", len(en["simple"]))):
+        for i in range(-2, cnt + 3):
+            enum_lines.append("fmtenum %s %d" % (kind, i))
+    for w in majors + subs + [0, 0x10002, 0x7fff0000, 0x12345678]:
+        enum_lines.append("fmtenum info %d" % w)
+    od = os.path.join(vlib.ROOT, "out", "C10", tier)
+    import shutil
+    shutil.rmtree(od, ignore_errors=True)
+    os.makedirs(od)
+    nsh = min(vlib.NPROC, len(majors))
+    jobs, ntuples = [], 0
+    for k in range(nsh):
+        mine = majors[k::nsh]
+        lines = ["scn %d kind=c10" % (k + 1)] + enum_lines
+        for m in mine:
+            for sb in subs:
+                for en_ in endians:
+                    for ch in chans:
+                        for r in rates:
+                            lines.append("fmtcheck %d %d %d" % (m | sb | en_, ch, r))
+                            ntuples += 1
+        lines.append("majors " + " ".join(str(m) for m in mine))
+        sp = os.path.join(od, "grid_%02d.script" % k)
+        open(sp, "w").write("\n".join(lines) + "\n")
+        jobs.append((sp, sp.replace(".script", ".ndjson")))
+
+    def one(job):
+        sp, ep = job
+        vlib.run_driver(exe, sp, ep, timeout=30)
+        v = vlib.validate_trace(ep, "TraceFormat.tla", "TraceFormat.cfg", heap="8g")
+        for b in v["bad"]:
+            b["script"], b["trace"] = sp, ep
+        return v
+    vs = vlib.parallel(jobs, one)
+    bad = [b for v in vs for b in v["bad"]]
+    # confirm rejected tuples alone in a fresh process (all that match no known finding, a sample of those that do)
+    rd = os.path.join(od, "replay")
+    os.makedirs(rd, exist_ok=True)
+    known = vlib.load_known()
+    todo, seen, nknown = [], set(), 0
+    for b in bad:
+        key = (b["op"], b["fmt"], b["ch"], b["rate"])
+        if key in seen:
+            continue
+        seen.add(key)
+        sig = {"fmt": b["fmt"], "ch": b["ch"], "rate": b["rate"], "why": b["why"], "op": b["op"], "major": (b["fmt"] >> 16) & 0xFFF, "sub": b["fmt"] & 0xFFFF}
+        if vlib.match_known("C10", sig, known):
+            nknown += 1
+            if nknown > 16:
+                continue
+        todo.append(b)
+
+    def conf(b):
+        rp = os.path.join(rd, "t%d_%d_%d.script" % (b["fmt"], b["ch"], b["rate"]))
+        if b["op"] == "fmtcheck":
+            open(rp, "w").write("scn 1 kind=c10 fmt=%d ch=%d rate=%d\nfmtcheck %d %d %d\n" % (b["fmt"], b["ch"], b["rate"], b["fmt"], b["ch"], b["rate"]))
+        else:
+            open(rp, "w").write("scn 1 kind=c10enum\n" + "\n".join(enum_lines) + "\n")
+        ep = rp.replace(".script", ".ndjson")
+        vlib.run_driver(exe, rp, ep, timeout=30)
+        v = vlib.validate_trace(ep, "TraceFormat.tla", "TraceFormat.cfg")
+        if v["bad"]:
+            return {"op": b["op"], "why": b["why"], "why2": b["why"], "replay": os.path.relpath(rp, vlib.ROOT),
+                    "cfg": {"fmt": b["fmt"], "ch": b["ch"], "rate": b["rate"], "kind": "c10"}}
+        return None
+    confirmed = [r for r in vlib.parallel(todo[:600], conf) if r]
+    opened = sum(v.get("opened", 0) for v in vs)
+    cov = {"states": sum(v["tlc_states"] for v in vs), "transitions": sum(v["lines"] for v in vs),
+           "traces_validated_against_impl": len(jobs), "evaluations": ntuples, "distinct_nontrivial": opened,
+           "rule": "complete grid majors(%d) x subtypes(%d) x endian{FILE,LITTLE,BIG,CPU} x channels%s x samplerate%s = %d tuples, each: sf_format_check, sf_open(SFM_WRITE), 8 frames through each of the four sample types, close, re-open; plus every index (and out-of-range indices) of the three enumeration commands and SFC_GET_FORMAT_INFO; distinct_nontrivial = tuples the library accepted and wrote (the others exercise the rejection clause)" % (len(majors), len(subs), chans, rates, ntuples),
+           "samples": [open(jobs[0][0]).read().splitlines()[len(enum_lines) + 1:len(enum_lines) + 6], enum_lines[:5]],
+           "exhaustive": tier == "thorough", "rejected_first_pass": len(bad), "rejected_confirmed": len(confirmed)}
+    if ntuples == 0 or opened == 0:
+        raise Infra("vacuous C10 run")
+    return vlib.finish("C10", tier, "model_checking", cov, t0, confirmed,
+                       assumptions=["the grid values are those of the property's quantifier", "format lists come from the library's own enumeration commands"])
+
+
+REGISTRY = {"C01": c01, "C07": c07, "C15": c15, "C10": c10, "C11": c11, "C19": c19, "C14": c14, "C16": c16, "C04": c04, "C05": c05, "C06": c06, "C08": c08, "C09": c09}
 
 
 def replay(prop, path):
